@@ -18,8 +18,8 @@ from saml2_tophat import BINDING_HTTP_POST as POST, BINDING_HTTP_REDIRECT as RED
 from saml2_tophat import BINDING_HTTP_ARTIFACT as ARTIFACT, BINDING_SOAP as SOAP
 
 CLAIM = {
-    "text": "Coq theorems (Props/C09.v) over an executable model of Entity.response_args / pick_binding and MetadataStore.service (None vs [] vs list, several sources, UnknownSystemEntity vs swallowed UnsupportedBinding, the try/except AttributeError structure of the _url/_index reads, binding list derivation, destinations(srvs)[0], message-type dispatch and SOAP short-cut): for EVERY metadata store, configuration, request, bindings argument and descr_type, any (binding, destination) produced is an endpoint the metadata registers for the stripped issuer under the consulted role and service (or the empty back-channel destination of the bindings==[SOAP] short-cut); a supplied consumer URL is answered only when string-equal to a registered location and otherwise the result is an error (never that URL), and a URL registered in the effective endpoint list is honoured; an issuer without that role in metadata always yields an error. The index half of the statement is REFUTED for the code as it stands (C09_index_refuted, witness) and proved for the repaired attribute reads (C09_index_when_read_both); C09_index_ignored proves that an AuthnRequest's index never influences the answer. Tie to the code: exhaustive cross product of small metadata layouts x request variants (URL registered / unregistered / near-miss, index, protocol binding, issuer, bindings argument, AuthnRequest / LogoutRequest / other message classes) through the real Server.response_args and pick_binding on every run, random larger layouts on top.",
-    "note": "Trusted: Coq kernel + vm_compute; the hand-written model is tied to the code by the correspondence (exhaustive for the small layouts, compared at answered-to/refused granularity plus exact binding and destination); str.strip() is modelled by Python's isspace code-point set; metadata loading itself (XML -> store) is C16's subject and enters here only through generated, valid, single-protocol descriptors. Finding F4: pick_binding reads <service>_index only when the request class lacks <service>_url, so an AuthnRequest's AssertionConsumerServiceIndex is never consulted and an unknown index is answered to the first endpoint of the preferred binding instead of being refused (destination is still a registered endpoint).",
+    "text": "Coq theorems (Props/C09.v) over an executable model of Entity.response_args / pick_binding and MetadataStore.service (None vs [] vs list, several sources, UnknownSystemEntity vs swallowed UnsupportedBinding, the independent getattr reads of _url/_index, binding list derivation, destinations(srvs)[0], message-type dispatch and SOAP short-cut): for EVERY metadata store, configuration, request, bindings argument and descr_type, any (binding, destination) produced is an endpoint the metadata registers for the stripped issuer under the consulted role and service (or the empty back-channel destination of the bindings==[SOAP] short-cut); a supplied consumer URL is answered only when string-equal to a registered location and otherwise the result is an error (never that URL), and a URL registered in the effective endpoint list is honoured; an issuer without that role in metadata always yields an error. The index half holds too (C09_index, C09_unknown_index_refused): an AuthnRequest naming an index and no URL is answered only to an endpoint carrying exactly that index, an unknown index is refused; for the code before the repair fix: 05de9b7d the file keeps the refutation (C09_index_before_fix_refuted, witness) about the separately named response_args_before_fix. Tie to the code: exhaustive cross product of small metadata layouts x request variants (URL registered / unregistered / near-miss, index, protocol binding, issuer, bindings argument, AuthnRequest / LogoutRequest / other message classes) through the real Server.response_args and pick_binding on every run, random larger layouts on top.",
+    "note": "Trusted: Coq kernel + vm_compute; the hand-written model is tied to the code by the correspondence (exhaustive for the small layouts, compared at answered-to/refused granularity plus exact binding and destination); str.strip() is modelled by Python's isspace code-point set; metadata loading itself (XML -> store) is C16's subject and enters here only through generated, valid, single-protocol descriptors. Finding F4 (pick_binding read <service>_index only when the request class lacked <service>_url, so an unknown AssertionConsumerServiceIndex was answered to the default endpoint) was found by this check and repaired in /repo (fix: 05de9b7d; known_findings.json 'fixed'); the oracle key acs-index-not-consulted:pick_binding reports it again if it returns. When a request carries both a URL and an index the URL decides and the index is not consulted (modelled; the statement's 'honoured only if registered' holds for the URL).",
     "technique": "machine-checked proof (Coq) + exhaustive small-scope and random model/implementation correspondence + implementation-level oracle",
 }
 TRUSTED = [
